@@ -110,6 +110,12 @@ impl Adapter<Prio2> for Prio2Ad {
         }
         v
     }
+    fn same_type_instance(&self, other: &Inst) -> Option<Prio2> {
+        if other.class != "prio2" {
+            return None;
+        }
+        Prio2::new(other.len as usize).ok()
+    }
     #[allow(deprecated)]
     fn wrong_len_output(&self, bytes: &[u8], _ap: &ApSpec, other_level: bool) -> Option<OutputShare<FieldPrio2>> {
         if other_level {
